@@ -349,7 +349,11 @@ func (e *Engine) runVC(vc *VC, fn *ssa.Function, fc *FuncContract, splitVals []i
 				cpost = vc.bindEnv(fc, fn, params, rc.results, rc.st, entry)
 			}
 			for pi, pe := range parts {
+				// facts and definitions produced while evaluating one postcondition stay local to its
+				// obligation (they would otherwise weigh on every later query of this function)
+				sn := vc.snapshot()
 				o := vc.obligeNoAssume(kind, fmt.Sprintf("postcondition %d of %s: %s", i, fc.Key, c.Text), rc.reach, cpost.evalGoal(pe), c.Tags...)
+				vc.restore(sn, o)
 				if o != nil {
 					o.Name = fmt.Sprintf("%s::ensures[%d]", vc.Name, i)
 					if c.Label != "" {
@@ -384,6 +388,57 @@ func (fc *FuncContract) mayNil(name string) bool {
 		}
 	}
 	return false
+}
+
+type vcSnap struct {
+	lines  int
+	hyps   int
+	scaled map[int][]string
+	consts map[string]string
+	used   map[string]bool
+}
+
+func (vc *VC) snapshot() *vcSnap {
+	if vc.skR == "" {
+		// declared outside any scoped region
+		vc.skR = vc.freshS(SRef, "sk_r")
+		vc.skI = vc.freshS(SBV64, "sk_i")
+	}
+	sn := &vcSnap{lines: len(vc.lines), hyps: len(vc.hyps), scaled: map[int][]string{}, consts: map[string]string{}, used: map[string]bool{}}
+	for k, v := range vc.scaled {
+		sn.scaled[k] = append([]string{}, v...)
+	}
+	for k, v := range vc.consts {
+		sn.consts[k] = v
+	}
+	for k, v := range vc.eng.used[vc] {
+		sn.used[k] = v
+	}
+	return sn
+}
+
+// restore drops everything emitted since the snapshot from the VC's running context and attaches
+// it to obligation o (which was created after the snapshot) instead.
+func (vc *VC) restore(sn *vcSnap, o *Obligation) {
+	if len(vc.lines) > sn.lines {
+		local := append([]string{}, vc.lines[sn.lines:]...)
+		vc.lines = vc.lines[:sn.lines]
+		if o != nil {
+			o.Prefix = sn.lines
+			o.Extra = append(local, o.Extra...)
+		}
+	}
+	if len(vc.hyps) > sn.hyps {
+		vc.hyps = vc.hyps[:sn.hyps]
+	}
+	vc.scaled, vc.consts = sn.scaled, sn.consts
+	// header-level declarations (uninterpreted functions, spec functions) stay declared
+	cur := vc.eng.used[vc]
+	for k := range cur {
+		if !sn.used[k] && !strings.HasPrefix(k, "uf:") && !strings.HasPrefix(k, "spec:") && !strings.HasPrefix(k, "fn:") && !strings.HasPrefix(k, "ufax:") {
+			delete(cur, k)
+		}
+	}
 }
 
 // obligeNoAssume records an obligation without assuming it afterwards (used
